@@ -2,7 +2,7 @@
    Statements only; model = Model/Passes.v (assemble_items), tied to asm.assemble by the pipeline correspondence
    (per-item blobs observed at resolve_blobs; real output = concatenation of those blobs is checked there). *)
 From Coq Require Import ZArith List String.
-From BB Require Import Base.PyBase Model.Items Model.Passes Proofs.Layout Proofs.LayoutInst Proofs.Pipeline Proofs.Examples.
+From BB Require Import Base.PyBase Model.Items Model.Passes Proofs.Layout Proofs.LayoutInst Proofs.Pipeline Proofs.Examples Gen.Sizes Proofs.SizesTable.
 Import ListNotations.
 Open Scope Z_scope.
 
@@ -44,3 +44,11 @@ Example C09_example :
   nonneg ex_its /\ NoDup (gnames ex_its) /\
   (exists r, assemble_items ex_its [] [] true = Done r /\ r_labels r = [("a", 0); ("b", 8)]%string).
 Proof. exact (conj ex_nonneg (conj ex_nodup ex_runs_c)). Qed.
+
+(* the size() the layout statements add up is the size() of the SOURCE: the model's [size] equals the description regenerated
+   on every run from the size() methods of asm.py (Gen/Sizes.v; Proofs/SizesTable.v) *)
+Theorem C09_size_from_source : forall it,
+  size it = match assoc_str (SizesTable.class_of it) Gen.Sizes.size_kinds with
+            | Some k => SizesTable.size_by_kind k it | None => None end.
+Proof. exact SizesTable.size_table. Qed.
+Print Assumptions C09_size_from_source.
